@@ -57,8 +57,8 @@ extern _Bool yv_cov(class_ref owner, class_ref x);
 /* ---- std::vector<T> as {data, n} ---------------------------------------- */
 #define YV_VEC(T, name) typedef struct { T *data; size_t n; } name
 YV_VEC(class_ref, vec_class);
-#define VEC_BEGIN(v) ((v).data)
-#define VEC_END(v) ((v).data + (v).n)
+#define VEC_BEGIN(v) (&(v).data[0])
+#define VEC_END(v) (&(v).data[0] + (v).n)
 #define VEC_SIZE(v) ((v).n)
 
 #define YV_MAX_ARITY 16   /* = resolution_error::max_types */
